@@ -186,7 +186,7 @@ impl Property for C18 {
         }
         if rng.chance(1, 6) {
             // the script arrives through a pipe (not seekable, one stream position, size 0)
-            plan.items.push(Item::FType { kind: 1 + rng.below(2) as u8 });
+            plan.items.push(Item::FType { kind: 1 + rng.below(3) as u8 });
             if !plan.items.iter().any(|i| matches!(i, Item::RChunk { .. })) && rng.chance(1, 2) {
                 plan.items.push(Item::RChunk { seed: rng.next_u64() >> 1, max: 1 + rng.below(32) });
             }
